@@ -9,20 +9,28 @@ def hexDigit (c : Char) : Option Nat :=
   else if 'A' ≤ c ∧ c ≤ 'F' then some (c.toNat - 'A'.toNat + 10)
   else none
 
-/-- Parses `"-"` (empty) or an even-length hex string. -/
-def parseHex (s : String) : Option (List UInt8) :=
+/-- `TTxN` (the text after the `~` / `*` of a run token): the byte `TT` and the count `N`. -/
+def parseRun (s : String) : Option (Nat × Nat) :=
+  match s.splitOn "x" with
+  | [t, n] =>
+    match t.toList, n.toNat? with
+    | [a, b], some k =>
+      match hexDigit a, hexDigit b with
+      | some x, some y => some (16 * x + y, k)
+      | _, _ => none
+    | _, _ => none
+  | _ => none
+
+/-- One part of a byte-string token: `"-"` (empty), an even-length hex string, the run
+`~TTxN` (the N bytes TT, TT+1, ... wrapping) or the constant run `*TTxN` (N copies of TT);
+same forms as the harness (`util::from_hex`). -/
+def parseHexPart (s : String) : Option (List UInt8) :=
   if s = "-" then some []
   else if s.startsWith "~" then
-    -- compact run notation `~TTxN`: the N bytes TT, TT+1, ... (wrapping); same form as the harness
-    match (s.drop 1).toString.splitOn "x" with
-    | [t, n] =>
-      match t.toList, n.toNat? with
-      | [a, b], some k =>
-        match hexDigit a, hexDigit b with
-        | some x, some y => some ((List.range k).map (fun i => UInt8.ofNat ((16 * x + y + i) % 256)))
-        | _, _ => none
-      | _, _ => none
-    | _ => none
+    (parseRun (s.drop 1).toString).map
+      (fun (t, k) => (List.range k).map (fun i => UInt8.ofNat ((t + i) % 256)))
+  else if s.startsWith "*" then
+    (parseRun (s.drop 1).toString).map (fun (t, k) => List.replicate k (UInt8.ofNat t))
   else
     let rec go (cs : List Char) (acc : Array UInt8) : Option (List UInt8) :=
       match cs with
@@ -33,6 +41,13 @@ def parseHex (s : String) : Option (List UInt8) :=
         | _, _ => none
       | _ => none
     go s.toList #[]
+
+/-- Parses a byte-string token: one part (see `parseHexPart`) or several joined by `+`
+(`fe+*41x65535+fd`). -/
+def parseHex (s : String) : Option (List UInt8) :=
+  if s.contains '+' then
+    ((s.splitOn "+").mapM parseHexPart).map List.flatten
+  else parseHexPart s
 
 def hexChar (n : Nat) : Char :=
   if n < 10 then Char.ofNat ('0'.toNat + n) else Char.ofNat ('a'.toNat + n - 10)
